@@ -78,7 +78,7 @@ def fmt(fr):
     return "%.6f" % float(fr)
 
 
-def run_import(arch, kind, text):
+def run_import(arch, kind, text, raw=False):
     with tempfile.NamedTemporaryFile("w", suffix=".dat", delete=False) as f:
         f.write(text)
         path = f.name
@@ -92,6 +92,8 @@ def run_import(arch, kind, text):
         finally:
             sys.stderr = old
         data = YAML(typ="safe").load(out.getvalue())
+        if raw:
+            return data["instruction_forms"]
         return {e["mnemonic"]: e for e in data["instruction_forms"] if str(e.get("mnemonic", "")).startswith("vt")}
     finally:
         os.unlink(path)
@@ -141,6 +143,28 @@ for isa, arch in (("x86", "zen1"), ("aarch64", "n1")):
     extra = set(got) - {f[0] for f in forms}
     if extra:
         R.fail("C20/import/ibench/invented", f"{isa}:ibench", f"entries not in the benchmark file were emitted: {sorted(extra)[:5]}")
+    # ---------------- several forms of ONE mnemonic in one file (as real ibench output has them): a new mnemonic, and a
+    # mnemonic the target model already knows; every imported form must be emitted
+    pairs = [("x", "x"), ("y", "y"), ("x", "mb"), ("r", "r")] if isa == "x86" else [("d", "d"), ("s", "s"), ("x", "x"), ("q", "mb")]
+    known = ("vaddpd", [("x", "x", "x"), ("y", "y", "y")]) if isa == "x86" else ("fadd", [("d", "d", "d"), ("s", "s", "s")])
+    for mnem, opsets, tag in (("vtsame", pairs, "same-mnemonic"), (known[0], known[1], "existing-mnemonic")):
+        lines = ["Using frequency 2.50GHz."]
+        want = []
+        for j, ops in enumerate(opsets):
+            n, k = (1, 2, 4, 5)[j % 4], (3, 4, 6, 7)[j % 4]
+            lines += [f"{mnem}-{'_'.join(ops)}-TP: {fmt(Fraction(1, n))} (clock cycles)    [DEBUG - result: 0.007813]",
+                      f"{mnem}-{'_'.join(ops)}-LT:    {fmt(Fraction(k))} (clock cycles)    [DEBUG - result: 1.000000]"]
+            want.append((ops, float(round(Fraction(1, n), 5)), float(k)))
+        entries = run_import(arch, "ibench", "\n".join(lines) + "\n", raw=True)
+        imported = [e for e in entries if str(e.get("mnemonic", "")).lower() == mnem]
+        for ops, tp, lt in want:
+            R.case((isa, tag, ops), sample=dict(isa=isa, form=mnem + "-" + "_".join(ops)))
+            wops = [ref_operand(c, isa) for c in ops]
+            hit = [e for e in imported if e.get("operands") == wops]
+            if not hit:
+                R.fail(f"C20/import/{tag}/missing", f"C20:{tag}:{isa}", f"imported form {mnem}-{'_'.join(ops)} is not in the emitted model ({len(imported)} forms of that mnemonic emitted)", dict(isa=isa, form=mnem, ops=ops))
+            elif (hit[0].get("throughput"), hit[0].get("latency")) != (tp, lt):
+                R.fail(f"C20/import/{tag}/values", f"C20:{tag}-values:{isa}", f"{mnem}-{'_'.join(ops)}: emitted (tp, lt) = {(hit[0].get('throughput'), hit[0].get('latency'))}, measured {(tp, lt)}", dict(isa=isa, form=mnem, ops=ops))
     # ---------------- asmbench: blocks of 4 lines, corruption at each block position
     blocks = []
     for i in range(12):
